@@ -876,9 +876,14 @@ impl Chain {
     }
 
     pub fn advance(&mut self, dh: u64, dt: u64) {
+        self.advance_ns(dh, dt, 0)
+    }
+
+    pub fn advance_ns(&mut self, dh: u64, dt: u64, dn: u64) {
         let mut b = self.app.block_info();
         b.height = b.height.saturating_add(dh);
-        b.time = Timestamp::from_nanos(b.time.nanos().saturating_add(dt.saturating_mul(1_000_000_000)));
+        b.time = Timestamp::from_nanos(b.time.nanos().saturating_add(dt.saturating_mul(1_000_000_000)).saturating_add(dn));
+        self.loghash.u64(dn);
         self.app.set_block(b);
         self.loghash.u64(dh);
         self.loghash.u64(dt);
